@@ -44,7 +44,13 @@ def gen_plan(rng, tier, run):
         elif c < 0.10:
             f["recipe"]["sections"] = [pelgen.gen_src(rng, "PS", f["recipe"]["creator"], callouts=10)] + \
                 [s for s in f["recipe"]["sections"] if s["kind"] != "src"]
-    plan = {"files": files,
+    late = None
+    if rng.random() < 0.25:
+        lr = pelgen.gen_pel(rng, eid=0x5A7E0000 | rng.randrange(1 << 16), want_class="serviceable", max_sections=2)
+        late = {"name": "late_%08X%s" % (lr["eid"], rng.choice(ext) if ext else ""), "recipe": lr}
+        if any(f["recipe"]["eid"] == lr["eid"] for f in files):
+            late = None
+    plan = {"files": files, "late_file": late,
             # process model: every invocation in a fresh module set (= its own process) or all in one process
             # how paths are spelled on the command line: absolute, relative to the cwd, with a trailing slash
             "path_style": rng.choice(["abs", "abs", "abs", "rel", "slash"]),
@@ -108,11 +114,20 @@ def execute(plan):
         def prelude(pos):
             # other invocations of the same process, before / between the compared ones
             for i, pre in enumerate(plan.get("prelude", [])):
-                if pre.get("pos", i % 3) == pos:
+                if (0 if plan.get("late_file") else pre.get("pos", i % 3)) == pos:
                     w.run(["-p", "@/" + target, pre["mode"]] + pre["opts"] + pre["flags"])
                     bump("prelude")
         res = {}
         prelude(0)
+        if plan.get("late_file") and files:
+            # the directory changes between earlier invocations of the process and the three compared ones
+            lf = plan["late_file"]
+            common.put_store(w, target, [lf])
+            files = files + [lf]
+            by_eid[lf["recipe"]["eid"]] = lf
+            datas[lf["name"]] = common.file_data(lf)
+            bump("late_file")
+        before = w.snapshot()
         enc = plan.get("stdout_encoding", "utf-8")
         res["n"] = w.run(base + ["-n"] + rev, order=plan["orders"]["n"], stdout_encoding=enc)
         prelude(1)
